@@ -73,7 +73,12 @@ def run(tier, mode):
     for _ in range(n // 10):   # lot lists with acreages, duplicates included (the duplicate-acreage bookkeeping of LotUnpacker)
         lots = [r.randint(1, 4) for _ in range(r.randint(2, 5))]
         texts.append(r.choice(['', 'T154N-R97W Sec 14: ']) + r.choice([', ', ' and ', '; ']).join(
-            f'{r.choice(["Lot", "Lots", "N/2 of Lot"])} {x}' + (f'({r.choice(["40", "38.29", "40.00", "0"])})' if r.random() < 0.7 else '') for x in lots))
+            f'{r.choice(["Lot", "Lots", "N/2 of Lot"])} {x}' + (f'({r.choice(["40", "38.29", "40.00", "0", "", ".", "40.", ".5", "000.000000"])})' if r.random() < 0.7 else '') for x in lots))
+        # the same lot restated in a separate block (something other than a list connective in between), with every shape of bracket the acreage pattern
+        # accepts -- also the empty and the dot-only one, which no number parser reads
+        x = r.randint(1, 4)
+        br = lambda: r.choice(['({})', '[{}]']).format(r.choice(['', '.', '40.10', '40.1', '38', '.5', '5.']))
+        texts.append(r.choice(['', 'T154N-R97W Sec 14: ']) + f'Lot {x}{br()}' + r.choice([' and the NE/4; ', ' less the N/2; ', '; NE/4, ']) + f'Lot {x}{br()}')
     # halves followed by a quarter in every spelling the half-plus-quarter scrubber accepts (hyphenated, 'Nort'/'Sout', dotted, spaced),
     # ending at every terminator its look-ahead accepts
     for _ in range(n // 5):
